@@ -237,7 +237,81 @@ func runScenario(cfs *crashfs.FS, sc dscenario, snaps map[int][]byte) *drun {
 	return r
 }
 
-func diskScenario(tr *tracer.T, sc dscenario, quickStride int) (runs int) {
+// secondLife : the process that came back after the first crash. It opens the table (the index it reports is judged
+// by a "recovered" event of its own), re-applies the rest of the log in batches of 1-2 with a Sync now and then, and
+// crashes after its j-th file-system operation (j = 0: never; the number of operations is returned). r is updated to
+// what the NEXT recovery may legally report: an apply-batch boundary of either life, at least the index covered by the
+// last completed sync of either life, at most what had been applied.
+func secondLife(tr *tracer.T, cfs *crashfs.FS, sc dscenario, r *drun, k, j int64, logJSON []map[string]any, total int64) (int64, bool) {
+	rng := rand.New(rand.NewSource(k*7919 + int64(len(sc.log))))
+	cfs.Arm(j)
+	f := fsm.New("tbl", "/data", cfs, nil, nil, sc.srt, nil)(10001, 1)
+	idx, err := f.Open(nil)
+	if err != nil && cfs.Crashed() {
+		return cfs.Ops(), true
+	}
+	if !cfs.Crashed() || err != nil {
+		es := ""
+		if err != nil {
+			es = err.Error()
+			if i := strings.Index(es, "/data"); i >= 0 {
+				es = es[:i] + "<path>"
+			}
+		}
+		if tr != nil {
+			tr.Emit(map[string]any{"ev": "reset"})
+			tr.Emit(map[string]any{"ev": "dlog", "log": logJSON})
+			tr.Emit(map[string]any{"ev": "recovered", "rep": 1, "k": k, "of": total, "op": "first of two crashes", "err": es, "idx": idx,
+				"bounds": r.bounds, "floor": r.floor, "applied": r.applied, "newrun": false, "firstrun": !r.firstOpenDone || r.floor == 0})
+		}
+		if err != nil {
+			return cfs.Ops(), false
+		}
+		r.applied = idx // nothing above the reported index can come back
+	}
+	defer f.Close()
+	var rest []logEntry
+	for _, e := range sc.log {
+		if e.I > idx {
+			rest = append(rest, e)
+		}
+	}
+	for p := 0; p < len(rest) && !cfs.Crashed(); {
+		q := p + 1 + rng.Intn(2)
+		if q > len(rest) {
+			q = len(rest)
+		}
+		var in []sm.Entry
+		for _, e := range rest[p:q] {
+			bb, _ := e.C.PB("tbl", e.LI).MarshalVT()
+			in = append(in, sm.Entry{Index: e.I, Cmd: bb})
+		}
+		if _, err := f.Update(in); err != nil {
+			if cfs.Crashed() {
+				break
+			}
+			die("second life update: %v", err)
+		}
+		cur := rest[q-1].I
+		r.bounds = append(r.bounds, cur)
+		if cur > r.applied {
+			r.applied = cur
+		}
+		if rng.Intn(2) == 0 && !cfs.Crashed() {
+			err := f.Sync()
+			if err != nil && !cfs.Crashed() {
+				die("second life sync: %v", err)
+			}
+			if !cfs.Crashed() && cur > r.floor {
+				r.floor = cur
+			}
+		}
+		p = q
+	}
+	return cfs.Ops(), true
+}
+
+func diskScenario(tr *tracer.T, sc dscenario, quickStride int, twice bool) (runs int) {
 	snaps := map[int][]byte{}
 	for si, st := range sc.steps {
 		if st.kind == "recover" {
@@ -256,7 +330,8 @@ func diskScenario(tr *tracer.T, sc dscenario, quickStride int) (runs int) {
 	for i, e := range sc.log {
 		logJSON[i] = map[string]any{"i": e.I, "c": e.C, "li": e.LI}
 	}
-	for k := int64(0); k <= total+1; k += int64(quickStride) {
+	// firstLife : a fresh file system, the scenario with a crash after operation k, everything non-durable dropped
+	firstLife := func(k int64) (*crashfs.FS, *drun, string) {
 		cfs := crashfs.New()
 		// the operator-provided base directory is durable beforehand
 		cfs.MemFS.MkdirAll("/data", 0o755)
@@ -288,6 +363,25 @@ func diskScenario(tr *tracer.T, sc dscenario, quickStride int) (runs int) {
 		}
 		what, _ := cfs.LastOp.Load().(string)
 		cfs.Recover()
+		return cfs, r, what
+	}
+	for k := int64(0); k <= total+1; k += int64(quickStride) {
+		cfs, r, what := firstLife(k)
+		if twice {
+			// repeated crashes: the recovering process (Open, re-apply, sync) crashes again after its j-th operation.
+			// The first pass counts the operations of that second life, the second pass puts the crash at a random one.
+			n2, _ := secondLife(nil, cfs, sc, r, k, 0, logJSON, total)
+			cfs, r, what = firstLife(k)
+			j := 1 + rand.New(rand.NewSource(k*31+int64(len(sc.log)))).Int63n(n2+1)
+			_, ok := secondLife(tr, cfs, sc, r, k, j, logJSON, total)
+			what2, _ := cfs.LastOp.Load().(string)
+			what = fmt.Sprintf("%s ; second life op %d of %d: %s", what, j, n2, what2)
+			cfs.Recover()
+			if !ok {
+				runs++
+				continue
+			}
+		}
 		// ---- reboot
 		tr.Emit(map[string]any{"ev": "reset"})
 		tr.Emit(map[string]any{"ev": "dlog", "log": logJSON})
@@ -542,7 +636,7 @@ func init() {
 		seed := fs.Int64("seed", 1, "seed")
 		n := fs.Int("n", 5, "scenarios")
 		stride := fs.Int("stride", 1, "crash after every stride-th operation")
-		mode := fs.String("mode", "crash", "crash | install (stop signals + lazy reads)")
+		mode := fs.String("mode", "crash", "crash | crash2 (a second crash while recovering from the first) | bigbatch | install (stop signals + lazy reads)")
 		child := fs.String("child", "", "internal: child process role")
 		_ = fs.Parse(args)
 		if *child == "lazyread" {
@@ -567,10 +661,10 @@ func init() {
 					diskStopSave(tr, rng)
 				}
 			} else if *mode == "bigbatch" {
-				runs = diskScenario(tr, bigScenario(rng), *stride)
+				runs = diskScenario(tr, bigScenario(rng), *stride, false)
 			} else {
 				sc := makeScenario(rng)
-				runs = diskScenario(tr, sc, *stride)
+				runs = diskScenario(tr, sc, *stride, *mode == "crash2")
 			}
 			fmt.Printf("BEHAVIOUR %d lines %d-%d class %d\n", b, start, tr.Lines(), runs)
 		}
